@@ -32,7 +32,7 @@ def build_script(assertions, opts=None, want_model=None, extra=None, abstract=Fa
         body.append(pr_assert(pr, a))
     for a in axs:
         body.append(pr_assert(pr, a))
-    lines = ['(set-option :produce-models true)'] if want_model is not None else []
+    lines = ['(set-option :produce-models true)', '(set-option :pp.decimal true)', '(set-option :pp.decimal_precision 17)'] if want_model is not None else []
     lines += pr.out
     lines += ['(assert %s)' % b for b in body]
     if extra:
@@ -60,7 +60,7 @@ def run_solver(script, solver='z3', timeout=20):
     else:
         cmd += ['--tlimit=%d' % int(timeout * 1000)]
     if solver == 'cvc5':
-        script = '(set-logic ALL)\n' + script
+        script = '(set-logic ALL)\n' + '\n'.join(l for l in script.split('\n') if ':pp.decimal' not in l)
     t0 = time.time()
     try:
         r = subprocess.run(cmd, input=script, capture_output=True, text=True, timeout=timeout + 5)
